@@ -4,6 +4,7 @@ Property theorems over the document state machine (Model/Doc.lean; vocabulary in
 proofs in Lemmas/Doc.lean).  Every `theorem` here is a counted obligation.
 -/
 import EzdxfVerif.Lemmas.Doc
+import EzdxfVerif.Lemmas.DocOwner
 
 namespace EzdxfVerif.Props.C05
 open EzdxfVerif.Doc
@@ -32,6 +33,11 @@ theorem step_inv (s : State) (op : Op) (h : DocInv s) (hok : OpOk s op) : DocInv
 theorem inv_reachable (s : State) (ops : List Op) (h : DocInv s) (hok : HistOk s ops) :
     DocInv (run s ops) := Doc.inv_reachable s ops h hok
 
+/-- the owner layout an entity reports is the layout that lists it: in every reachable state every live
+    entity listed in an entity space is owned by exactly that block record -/
+theorem owner_consistent (s : State) (ops : List Op) (h : DocInv s) (ho : OwnerInv s) (hok : HistOk s ops) :
+    OwnerInv (run s ops) := Doc.owner_inv_reachable s ops h ho hok
+
 /-- reference model "a layout is an ordered list": creation appends to that layout only -/
 theorem spec_add (s : State) (k h seed : Nat) (sp : List Nat) (hsp : spaceOf s k = some sp)
     (hf : freshOk s [h] seed = true) (hfresh : h ∉ hs s)
@@ -59,6 +65,9 @@ def fresh : State :=
 
 example : DocInv fresh := by
   simp [DocInv, HInv, SInv, hs, keys, allH, fresh]
+
+example : OwnerInv fresh := by
+  simp [OwnerInv, fresh]
 
 example : HistOk fresh [.add 23 47 48, .unlink 23 47, .addex 27 47] := by
   simp [HistOk, OpOk, step, newEnt, unlinkCore, spaceOf, freshOk, fresh, isAlive, findEnt, setSpace, allH, setEnt]
